@@ -30,6 +30,9 @@ def main():
 
     def wrapper(step):
         enter_store(step)
+        if step.get("store", "").startswith("_REL@"):
+            # ONE Memory("relcache") object (and one wrapper) used from several working directories
+            step = dict(step, store="_REL@")
         key = (step["f"], step.get("kind", "function"), tuple(step.get("ignore") or ()), bool(step.get("compress")), step.get("frozen"), step.get("store", ""), bool(step.get("wrapped")), bool(step.get("redecorate")), int(step.get("verbose", 0)))
         if key not in wrappers:
             ck = (bool(step.get("compress")), step.get("store", ""), int(step.get("verbose", 0)))
